@@ -112,10 +112,31 @@ def _assign_case(seed):
     params = H.make_params("default_ont", matching)
     single = rng.random() < .5
     isoforms = H.make_gene(rng, 1 if single else None)
+    # one case in eight (own generator, so that all other seeds keep their cases): a sibling isoform whose only difference from T1 is one
+    # inner splice site moved by 1..delta bp - two annotated introns within the tolerance of each other at both ends; the read then follows
+    # one of the two exactly and that isoform must be among the reported ones
+    rng3 = random.Random(seed * 104729 + 7)
+    near = rng3.random() < .125 and params.delta >= 1 and len(isoforms[0][2]) >= 3
+    if near:
+        ex1 = list(isoforms[0][2])
+        i = rng3.randrange(0, len(ex1) - 1)
+        dshift = rng3.randint(1, params.delta)
+        if rng3.random() < .5:
+            ex1[i] = (ex1[i][0], ex1[i][1] + dshift)
+        else:
+            ex1[i + 1] = (ex1[i + 1][0] - dshift, ex1[i + 1][1])
+        if ex1[i][1] + 20 < ex1[i + 1][0] and all(ex1 != e for _, _, e in isoforms):
+            isoforms = [isoforms[0], ("Tnear", isoforms[0][1], ex1)] + isoforms[1:]
+        else:
+            near = False
     gi = H.gene_info_of(isoforms, params.delta)
     tid, strand, exons = rng.choice(isoforms)
     kind = rng.choice(["exact", "truncated", "jitter", "intron_retention", "skipped_exon", "novel_exon", "partial_intron_retention",
                        "distant_5p_end", "novel_intron_in_exon"])
+    if near:
+        tid, strand, exons = isoforms[rng3.randrange(2)]
+        kind = "exact"
+        single = False
     len_diff = None
     # a tenth kind, drawn from a generator of its own so that the cases of all earlier seeds (incl. the listed witness) stay what they were
     rng2 = random.Random(seed * 7919 + 13)
@@ -313,7 +334,7 @@ def _elong_extract(side):
     return ex
 
 
-record("ElongParams", {"delta": "int", "minor_exon_extension": "int"})
+record("ElongParams", {"delta": "int", "minor_exon_extension": "int", "major_exon_extension": "int"})
 record("AssignerP", {"params": "rec:ElongParams"})
 
 for side, cf, il in (("left", "common_first_exon", "isoform_first_exon"), ("right", "common_last_exon", "isoform_last_exon")):
@@ -323,7 +344,7 @@ for side, cf, il in (("left", "common_first_exon", "isoform_first_exon"), ("righ
     contract(LA + "LongReadAssigner.categorize_exon_elongation_subtype#" + side,
              {"self": "rec:AssignerP", X: "int", cf: "int", il: "int"}, returns="list[enum:MatchEventSubtype]",
              props=["C01", "C11"], extract=_elong_extract(side), native=False, locals={"events": "list[enum:MatchEventSubtype]"},
-             requires=["0 <= self.params.delta <= self.params.minor_exon_extension"],
+             requires=["0 <= self.params.delta <= self.params.minor_exon_extension <= self.params.major_exon_extension"],
              ensures=[
                  # on the isoform's own terminal exon: within delta = precise terminal match and nothing else ...
                  "not (%s == %s and -self.params.delta <= %s <= self.params.delta) or result == [%s]" % (cf, il, X, P),
